@@ -21,7 +21,7 @@ def ticksOfPool (s : CL.St) (pool : Nat) : List Int :=
     ++ (s.positions.filter (·.pool == pool)).foldr (fun q acc => q.lower :: q.upper :: acc) []
 
 /-- positions newest first (`CLBook.add` conses) -/
-def absC (s : CL.St) (pool : Nat) (slack : Rat) : Option St :=
+def absC (s : CL.St) (pool : Nat) (slack : Rat) (sp : Int → Rat) : Option St :=
   match CL.getPool s pool with
   | some p =>
     let tk (t : Int) : Option CL.TickInfo := CL.findTick s pool t
@@ -32,7 +32,7 @@ def absC (s : CL.St) (pool : Nat) (slack : Rat) : Option St :=
         net := fun t => match tk t with | some ti => ti.net.raw | none => 0
         tick := p.tick
         active := p.liq.raw }
-      sp := spOf p.tp
+      sp := sp
       P := ratOfDec p.sqrtP
       base := (s.bank.bal (CL.poolAddr pool) p.base : Int)
       quote := (s.bank.bal (CL.poolAddr pool) p.quote : Int)
@@ -155,6 +155,15 @@ def invOnC (s : St) : Bool :=
    && gridOn s.sp ((s.book.pos.foldr (fun x acc => x.lo :: x.hi :: acc) []) ++ [s.book.tick, s.book.tick + 1])
    && decide (owedBase s ≤ s.base + s.slack) && decide (owedQuote s ≤ s.quote + s.slack))
 
+/-- ticks whose grid price the events need -/
+def evTicks : List Ev → List Int
+  | [] => []
+  | .swapStep _ _ c' _ _ :: rest => c' :: (c' + 1) :: evTicks rest
+  | .cross _ t :: rest => t :: (t - 1) :: (t + 1) :: evTicks rest
+  | .setPrice _ c :: rest => c :: (c + 1) :: evTicks rest
+  | .deposit lo hi _ _ _ :: rest => lo :: hi :: evTicks rest
+  | _ :: rest => evTicks rest
+
 /-- swap trace → events.  `down` = base-for-quote.  A `.step` is followed by the `.cross`/`.move` of the same iteration
     (or by nothing when the price did not move). -/
 def swapEvs (down : Bool) (cur : Int) : List CL.SwapEv → List Ev
@@ -171,8 +180,8 @@ def swapEvs (down : Bool) (cur : Int) : List CL.SwapEv → List Ev
   | _ :: rest => swapEvs down cur rest
 
 /-- lock-step verdict for one pool: returns (ok, largest rounding error within its analytic bound, sum of the errors) -/
-def lockstepC (before after : CL.St) (pool : Nat) (evs : List Ev) : Bool × Bool × Rat :=
-  match absC before pool 0, absC after pool 0 with
+def lockstepC (before after : CL.St) (pool : Nat) (evs : List Ev) (sp : Int → Rat) : Bool × Bool × Rat :=
+  match absC before pool 0 sp, absC after pool 0 sp with
   | some a, some b =>
     let ts := ticksOfPool before pool ++ ticksOfPool after pool
     match runEvs ts a 0 evs with
